@@ -37,7 +37,17 @@ def main(seed, n):
                 text3 = str(rcls(constraints=list(set(objs))))
             except Exception as e:  # noqa: BLE001
                 text = text2 = text3 = "raise:" + type(e).__name__
-            out.append("%s %d %s | %s | %s" % (name, i, text, text2, text3))
+            # ranges built from a list of version texts in which versions recur in other spellings
+            vs = []
+            for r in sorted(rng.sample(range(width), min(width, 4))):
+                vs += [t for t, _v in bench.spellings(m[r])][:3]
+            rng.shuffle(vs)
+            try:
+                text4 = str(rcls.from_versions(vs))
+                text5 = str(rcls(constraints=objs).normalize(vs)) if len(objs) <= 8 else "-"
+            except Exception as e:  # noqa: BLE001
+                text4 = text5 = "raise:" + type(e).__name__
+            out.append("%s %d %s | %s | %s | %s | %s" % (name, i, text, text2, text3, text4, text5))
     sys.stdout.write("\n".join(out) + "\n")
 
 
